@@ -208,7 +208,7 @@ fn check_pairs(ei: usize, e: &Expr, devs: &[String], base: &Baseline, acc: &mut 
 pub fn run(ctx: &Ctx) -> i32 {
     let devs = devices();
     let es = exprs();
-    let maxlen = ctx.tier.pick(3, 4);
+    let maxlen = ctx.tier.pick(4, 5);
     let nops = devs.len() + 1;
     let mut acc = Acc::new();
     for (ei, (e, threads)) in es.iter().enumerate() {
